@@ -537,7 +537,11 @@ class Interp:
         elif isinstance(t, ast.Subscript):
             base = self.eval(t.value, env)
             key = self.eval(t.slice, env)
-            if isinstance(base, ADict):
+            if isinstance(key, slice) and isinstance(base, AList):
+                if any(isinstance(x, float) for x in (key.start, key.stop, key.step)):
+                    raise RaiseSig('TypeError', ('slice indices must be integers',), t)
+                base.l[key] = list(self.iterate(val, t))
+            elif isinstance(base, ADict):
                 base.d[key] = val
             elif isinstance(base, AList) and isinstance(key, float):
                 raise RaiseSig('TypeError', ('list indices must be integers or slices, not float',), t)
@@ -785,7 +789,7 @@ class Interp:
                             pass
                 return ('extern', modname, orig)
             if e.id in ('len', 'next', 'iter', 'reversed', 'list', 'enumerate', 'isinstance', 'str', 'int', 'float', 'dict', 'tuple', 'range', 'bool', 'min', 'max', 'complex',
-                        'ord', 'chr', 'callable', 'object', 'type', 'getattr', 'hasattr', 'super', 'issubclass', 'repr', 'divmod', 'round', 'pow', 'id'):
+                        'ord', 'chr', 'callable', 'object', 'type', 'getattr', 'hasattr', 'setattr', 'slice', 'super', 'issubclass', 'repr', 'divmod', 'round', 'pow', 'id'):
                 return ('builtin', e.id)
             if e.id in ('Exception', 'BaseException', 'ValueError', 'TypeError', 'KeyError', 'IndexError', 'ArithmeticError', 'ZeroDivisionError', 'OverflowError', 'AttributeError',
                         'LookupError', 'RuntimeError', 'StopIteration', 'RecursionError', 'OSError', 'NotImplementedError', 'AssertionError', 'UnicodeError'):
@@ -904,6 +908,10 @@ class Interp:
                     return base[lo:hi]
                 return Sym('slice', base, lo, hi)
             key = self.eval(e.slice, env)
+            if isinstance(key, slice) and isinstance(base, (AList, str, tuple)):
+                if any(isinstance(x, float) for x in (key.start, key.stop, key.step)):
+                    raise RaiseSig('TypeError', ('slice indices must be integers',), e)
+                return AList(base.l[key]) if isinstance(base, AList) else base[key]
             if isinstance(base, ADict):
                 if key not in base.d:
                     fac = getattr(base, 'default_factory', None)
@@ -2423,6 +2431,17 @@ class Interp:
             if isinstance(v, ASet):
                 return ('typeof', 'set')
             self.bad(e, 'type() of an abstract value')
+        if name == 'slice' and 1 <= len(args) <= 3:
+            if any(isinstance(a, float) for a in args):
+                return slice(*args)         # the TypeError comes when it is used as an index, as in the host
+            if all(a is None or (isinstance(a, int) and not isinstance(a, bool)) for a in args):
+                return slice(*args)
+            raise Unrecognised(self.rule, f'slice() of non-concrete bounds {args!r}', self.mod.rel)
+        if name == 'setattr' and len(args) == 3 and isinstance(args[1], str) and isinstance(args[0], AObj):
+            if getattr(args[0], 'frozen', False):
+                raise RaiseSig('AttributeError', (f"can't set attribute {args[1]}",), e)
+            args[0].attrs[args[1]] = args[2]
+            return None
         if name in ('getattr', 'hasattr') and len(args) >= 2 and isinstance(args[1], str):
             obj, attr = args[0], args[1]
             if isinstance(obj, tuple) and obj and obj[0] == 'partial' and attr in ('func', 'args', 'keywords'):
